@@ -24,7 +24,16 @@
 //!               first - the one under way included -, then the new ones.)
 //!           kill ops (kind Q only, exactly one): Y<p> checkpoint killed at its crash point p | V<i>.<p> restore of id #i
 //!               killed at its crash point p   (p past the last point of the call: the child returns and exits)
-//!           kill step := dead@<label of the point>|exit / files / id>ok=<view>|id><kind>=u|c,…
+//!               | W<p>.<sel>.<a> checkpoint whose `write_all` is SPLIT by the hook (`verif_crash::arm_split`) at a byte offset k
+//!               of the REAL serialised bytes, killed at point p of the extended point list (p = 4: INSIDE the write, after
+//!               exactly k bytes - a truncated state.json produced by a real kill). k by selector: sel 0 = min(a, len-1);
+//!               1 = len - min(a, len); 2 = len*min(a,32)/32; 3 / 4 / 5 = the (a mod n)-th offset inside a multi-byte
+//!               character / inside a number / behind a backslash (len/2 if there is none).
+//!           kill step := dead@<label of the point>|exit / files / id>ok=<view>|id><kind>=u|c,… [/ recon]
+//!           recon (W only) := `-` | P|N:<outcome>   the child died inside the write: P = the state.json it left is byte for
+//!               byte the first k bytes of the text it was writing (saved by the split chooser before the first write) and k
+//!               is the selector's offset; <outcome> = a new store restoring the interrupted id from the RECONSTRUCTION of
+//!               that truncation point (those k bytes put into a scratch copy with fs::write, as the `K` analysis does)
 //! obs  := step;step;…   step := res/gets/keys/len/metas/files[/crash]
 //!           res   := ok | ok:<id> | err:<kind>          id printed `<ms>.<seq>` (`<ms>` before the fix)
 //!           gets  := g,g,g   (g = value index or `_`)   keys := sorted key indices   len := usize
@@ -191,6 +200,7 @@ enum Op {
     Event(usize, usize),
     Kill(u64),
     KillRestore(usize, u64),
+    KillW(u64, u64, u64),
 }
 
 fn parse_op(s: &str) -> Option<Op> {
@@ -222,6 +232,7 @@ fn parse_op(s: &str) -> Option<Op> {
         ("R", 1) => Op::Restore(nums[0] as usize),
         ("Y", 1) => Op::Kill(nums[0]),
         ("V", 2) => Op::KillRestore(nums[0] as usize, nums[1]),
+        ("W", 3) if nums[1] <= 5 => Op::KillW(nums[0], nums[1], nums[2]),
         ("A", 1) => Op::Advance(nums[0]),
         _ => return None,
     })
@@ -242,6 +253,7 @@ fn show_op(o: &Op) -> String {
         Op::Restore(i) => format!("R{}", i),
         Op::Kill(p) => format!("Y{}", p),
         Op::KillRestore(i, p) => format!("V{}.{}", i, p),
+        Op::KillW(p, sel, a) => format!("W{}.{}.{}", p, sel, a),
         Op::Advance(d) => format!("A{}", d),
     }
 }
@@ -280,7 +292,7 @@ fn parse_case(case: &str) -> Option<Case> {
     if !file && ops.iter().any(|o| matches!(o, Op::FailCk)) {
         return None;
     }
-    let kills = ops.iter().filter(|o| matches!(o, Op::Kill(_) | Op::KillRestore(..))).count();
+    let kills = ops.iter().filter(|o| matches!(o, Op::Kill(_) | Op::KillRestore(..) | Op::KillW(..))).count();
     let special = ops.iter().any(|o| matches!(o, Op::Crash | Op::FailCk | Op::Event(..)));
     if (real && (kills != 1 || special)) || (!real && kills != 0) {
         return None;
@@ -657,6 +669,42 @@ fn apply_plain(s: &mut StateStore, op: &Op, tab: &[Value], now: &mut u64, ids: &
     }
 }
 
+/// the byte offset at which the hook splits the write, chosen from the REAL serialised bytes (see the header)
+fn choose_offset(sel: u64, a: u64, b: &[u8]) -> usize {
+    let len = b.len();
+    let a = a as usize;
+    let nth = |c: Vec<usize>| if c.is_empty() { len / 2 } else { c[a % c.len()] };
+    let num = |c: u8| c.is_ascii_digit() || matches!(c, b'.' | b'e' | b'E' | b'-' | b'+');
+    match sel {
+        0 => a.min(len.saturating_sub(1)),
+        1 => len - a.min(len),
+        2 => len * a.min(32) / 32,
+        3 => nth((1..len).filter(|&k| b[k] & 0xC0 == 0x80).collect()),
+        4 => nth((1..len).filter(|&k| num(b[k - 1]) && num(b[k]) && (b[k - 1].is_ascii_digit() || b[k].is_ascii_digit())).collect()),
+        _ => nth((1..len).filter(|&k| b[k - 1] == b'\\').collect()),
+    }
+}
+
+/// where the child's split chooser saves the complete text it was about to write (a sibling of the backend directory)
+fn side_file(root: &Path) -> PathBuf {
+    PathBuf::from(format!("{}.full", root.display()))
+}
+
+/// after a restart: a NEW store on `root` holding the sentinel entries restores `id`
+fn probe_restore(root: &Path, id: &str, now: u64, tab: &[Value]) -> String {
+    verif_clock::set_ms(Some(now));
+    let mut fresh = StateStore::with_config(StateConfig { backend: StateBackend::File { path: root.to_path_buf() }, ..Default::default() });
+    fresh.put(KEYS[0], tab[1].clone()).unwrap();
+    fresh.put(KEYS[2], tab[3].clone()).unwrap();
+    let sentinel = store_view(&fresh, tab);
+    let r = fresh.restore(id);
+    let v = store_view(&fresh, tab);
+    match r {
+        Ok(()) => format!("ok={}", show_view(&v)),
+        Err(e) => format!("{}={}", err_kind(&e), if v == sentinel && fresh.len() == sentinel.len() { "u" } else { "c" }),
+    }
+}
+
 fn say(line: &str) {
     use std::io::Write;
     let o = std::io::stdout();
@@ -681,6 +729,25 @@ fn child_main(dir: &str, case: &str) -> ! {
                 verif_crash::arm(Some(*p));
                 let r = s.checkpoint(format!("cp{}", ids.len()));
                 verif_crash::arm(None);
+                match r {
+                    Ok(id) => say(&format!("#exit {}", id)),
+                    Err(e) => say(&format!("#exit-err {}", err_kind(&e))),
+                }
+                std::process::exit(0);
+            }
+            Op::KillW(p, sel, a) => {
+                // the real `write_all` in two steps around a crash point: the chooser sees the real bytes, saves them
+                // beside the backend directory and returns the split offset
+                let side = side_file(&root);
+                let (sel, a) = (*sel, *a);
+                verif_crash::arm_split(Some(Box::new(move |bytes: &[u8]| {
+                    let _ = fs::write(&side, bytes);
+                    choose_offset(sel, a, bytes)
+                })));
+                verif_crash::arm(Some(*p));
+                let r = s.checkpoint(format!("cp{}", ids.len()));
+                verif_crash::arm(None);
+                verif_crash::arm_split(None);
                 match r {
                     Ok(id) => say(&format!("#exit {}", id)),
                     Err(e) => say(&format!("#exit-err {}", err_kind(&e))),
@@ -713,7 +780,16 @@ fn exec_real(c: &Case, case: &str) -> String {
     use std::os::unix::process::ExitStatusExt;
     let tab = values();
     let root = fresh_dir("q");
-    let _guard = DirGuard(vec![root.clone()]);
+    let scratch = fresh_dir("w");
+    let side = side_file(&root);
+    let _guard = DirGuard(vec![root.clone(), scratch.clone()]);
+    struct FileGuard(PathBuf);
+    impl Drop for FileGuard {
+        fn drop(&mut self) {
+            let _ = fs::remove_file(&self.0);
+        }
+    }
+    let _side_guard = FileGuard(side.clone());
     let exe = match std::env::current_exe() {
         Ok(e) => e,
         Err(_) => return "no-exe".into(),
@@ -739,29 +815,39 @@ fn exec_real(c: &Case, case: &str) -> String {
             steps.push(l.to_string());
         }
     }
-    let kpos = c.ops.iter().position(|o| matches!(o, Op::Kill(_) | Op::KillRestore(..))).unwrap();
+    let kpos = c.ops.iter().position(|o| matches!(o, Op::Kill(_) | Op::KillRestore(..) | Op::KillW(..))).unwrap();
     if steps.len() != kpos || dead == completed.is_some() {
         return format!("child-protocol:{}:{}", steps.len(), dead);
     }
     let mut now: u64 = c.ops[..kpos].iter().map(|o| if let Op::Advance(d) = o { *d } else { 0 }).sum();
     let armed = match &c.ops[kpos] {
-        Op::Kill(p) | Op::KillRestore(_, p) => *p,
+        Op::Kill(p) | Op::KillRestore(_, p) | Op::KillW(p, ..) => *p,
         _ => 0,
     };
+    // killed at the point inside the write: `partial:<bytes written>/<bytes in all>`
+    let mut partial: Option<(usize, usize)> = None;
     // `@<n> <label>`: the crash point that killed the child
     let head = if dead {
         let e = String::from_utf8_lossy(&out.stderr);
         let l = e.lines().rev().find(|l| l.starts_with('@')).unwrap_or("@? ?").to_string();
         let mut it = l[1..].split(' ');
         let n = it.next().unwrap_or("?");
-        let label = it.next().unwrap_or("?");
+        let mut label = it.next().unwrap_or("?");
+        if let Some((l0, kl)) = label.split_once(':') {
+            if let Some((k, len)) = kl.split_once('/') {
+                if let (Ok(k), Ok(len)) = (k.parse(), len.parse()) {
+                    partial = Some((k, len));
+                    label = l0;
+                }
+            }
+        }
         if n == armed.to_string() { format!("dead@{}", label) } else { format!("dead@{}#{}", label, n) }
     } else {
         "exit".to_string()
     };
     // the id under way when the child died: the one directory nobody reported, else (nothing on disk yet) the id the
     // scheme of the code under test gives the next call; a completed call reported it itself
-    if matches!(c.ops[kpos], Op::Kill(_)) {
+    if matches!(c.ops[kpos], Op::Kill(_) | Op::KillW(..)) {
         let under_way = match completed {
             Some(id) => id,
             None => {
@@ -775,23 +861,38 @@ fn exec_real(c: &Case, case: &str) -> String {
     let files = show_files(&root, &tab);
     let mut probes: Vec<String> = Vec::new();
     for id in &ids {
-        verif_clock::set_ms(Some(now));
-        let mut fresh = StateStore::with_config(StateConfig { backend: StateBackend::File { path: root.clone() }, ..Default::default() });
-        fresh.put(KEYS[0], tab[1].clone()).unwrap();
-        fresh.put(KEYS[2], tab[3].clone()).unwrap();
-        let sentinel = store_view(&fresh, &tab);
-        let r = fresh.restore(id);
-        let v = store_view(&fresh, &tab);
-        probes.push(format!(
-            "{}>{}",
-            canon_id(id),
-            match r {
-                Ok(()) => format!("ok={}", show_view(&v)),
-                Err(e) => format!("{}={}", err_kind(&e), if v == sentinel && fresh.len() == sentinel.len() { "u" } else { "c" }),
-            }
-        ));
+        probes.push(format!("{}>{}", canon_id(id), probe_restore(&root, id, now, &tab)));
     }
-    steps.push(format!("{}/{}/{}", head, files, if probes.is_empty() { "-".to_string() } else { probes.join(",") }));
+    let mut kill_step = format!("{}/{}/{}", head, files, if probes.is_empty() { "-".to_string() } else { probes.join(",") });
+    if let Op::KillW(_, sel, a) = c.ops[kpos] {
+        kill_step.push('/');
+        match (partial, ids.last()) {
+            (Some((k, len)), Some(raw_id)) => {
+                // the child died INSIDE write_all. What it left must be exactly the first k bytes of the text it was writing;
+                // and the same truncation point REBUILT the way the `K` analysis rebuilds it must restore alike.
+                let full = fs::read(&side).unwrap_or_default();
+                let tree = read_tree(&root);
+                let cid = canon_id(raw_id);
+                let on_disk: Option<Vec<u8>> = tree.get(&cid).and_then(|x| x.1.clone());
+                let exact = full.len() == len
+                    && k <= len
+                    && k == choose_offset(sel, a, &full)
+                    && on_disk.as_deref() == Some(&full[..k.min(full.len())]);
+                let mut rebuilt = tree.clone();
+                rebuilt.insert(cid, (raw_id.clone(), Some(full[..k.min(full.len())].to_vec())));
+                materialise(&scratch, &rebuilt);
+                kill_step.push_str(&format!("{}:{}", if exact { "P" } else { "N" }, probe_restore(&scratch, raw_id, now, &tab)));
+                if let Ok(p) = std::env::var("C20_STATS") {
+                    use std::io::Write;
+                    if let Ok(mut f) = fs::OpenOptions::new().create(true).append(true).open(p) {
+                        let _ = writeln!(f, "W {} {}", k, len);
+                    }
+                }
+            }
+            _ => kill_step.push('-'),
+        }
+    }
+    steps.push(kill_step);
     // second life: a NEW store on the directory the child left
     verif_clock::set_ms(Some(now));
     let mut s = open_store(c, &root);
@@ -872,7 +973,7 @@ fn exec(case: &str) -> String {
                 let id = ids.get(*i).cloned().unwrap_or_else(|| "checkpoint_nonexistent".to_string());
                 unit(s.restore(&id))
             }
-            Op::Kill(_) | Op::KillRestore(..) => "bad-op".into(),
+            Op::Kill(_) | Op::KillRestore(..) | Op::KillW(..) => "bad-op".into(),
             Op::Checkpoint | Op::Crash => {
                 let before = if c.file { read_tree(&root) } else { Tree::new() };
                 let view = store_view(s.st(), &tab);
@@ -908,6 +1009,49 @@ fn exec(case: &str) -> String {
         }
     }
     if steps.is_empty() { "-".into() } else { steps.join(";") }
+}
+
+/// length of the `state.json` a checkpoint after these ops (puts / deletes / clear, no TTL) would write - only used by the
+/// generator to decide how many split offsets are worth trying (the selectors clamp, so a wrong guess costs nothing)
+fn estimated_file_len(pre: &[Op]) -> usize {
+    let tab = values();
+    let mut m: HashMap<String, Value> = HashMap::new();
+    for o in pre {
+        match o {
+            Op::Put(k, v) => {
+                m.insert(KEYS[*k].to_string(), tab[*v].clone());
+            }
+            Op::Update(k, v) if m.contains_key(KEYS[*k]) => {
+                m.insert(KEYS[*k].to_string(), tab[*v].clone());
+            }
+            Op::Delete(k) => {
+                m.remove(KEYS[*k]);
+            }
+            Op::Clear => m.clear(),
+            _ => {}
+        }
+    }
+    serde_json::to_string_pretty(&m).map(|s| s.len()).unwrap_or(64)
+}
+
+/// the (selector, argument) pairs of the split-write family for a file of about `len` bytes: EVERY offset 0..len of a small
+/// file; for a large one 33 evenly spread offsets incl. 0 and len, offsets 1 and len-1, and offsets inside multi-byte
+/// characters, inside numbers and behind backslashes
+fn split_offsets(len: usize) -> Vec<(u64, u64)> {
+    let mut v: Vec<(u64, u64)> = Vec::new();
+    if len <= 64 {
+        for a in 0..len.max(2) as u64 - 1 {
+            v.push((0, a));
+        }
+        v.push((1, 1));
+        v.push((1, 0));
+    } else {
+        for a in 0..=32u64 {
+            v.push((2, a));
+        }
+        v.extend([(0, 1), (1, 1), (1, 0), (3, 0), (3, 1), (3, 7), (4, 0), (4, 1), (4, 5), (5, 0), (5, 3)]);
+    }
+    v
 }
 
 fn random_op(rng: &mut Rng, n_ck: usize, short: bool) -> Op {
@@ -1229,6 +1373,100 @@ fn gen(rng: &mut Rng, n: usize, tier: &str) -> Vec<String> {
             ops.push(if restore_kill { Op::KillRestore(target, p) } else { Op::Kill(p) });
             ops.extend(post.iter().cloned());
             out.push(show_case(&Case { real: true, oper: false, file: true, max_ck, ttl, ops }));
+        }
+        // ... and the same fatal checkpoint killed INSIDE its write_all (op W, point 4) at a spread of byte offsets of this
+        // history's file (see the split-write family below)
+        if !restore_kill {
+            for (sel, a) in split_offsets(estimated_file_len(&pre)) {
+                let mut ops = pre.clone();
+                ops.push(Op::KillW(4, sel, a));
+                ops.extend(post.iter().cloned());
+                out.push(show_case(&Case { real: true, oper: false, file: true, max_ck, ttl, ops }));
+            }
+        }
+    }
+    // split-write family (kind Q, op W): the real `write_all` of the fatal checkpoint is carried out in two steps around a
+    // crash point at byte offset k of the REAL serialised text, and the child is killed there (point 4): a truncated
+    // state.json produced by a real kill. Every offset of the small files, a spread of offsets of the large ones; with and
+    // without earlier checkpoints / a retention victim; values with multi-byte characters, escapes, long numbers, deep
+    // nests, values that do not read back. Per history also: the points around the split (3, 5) and past the end.
+    let mut w_hist: Vec<(usize, Vec<Op>)> = vec![
+        (10, vec![]),
+        (10, vec![Op::Put(0, 0)]),
+        (2, vec![Op::Put(0, 1), Op::Checkpoint, Op::Put(1, 5)]),
+        (1, vec![Op::Put(0, 3), Op::Checkpoint, Op::Delete(0), Op::Put(1, 9)]),
+        (10, vec![Op::Put(2, 4), Op::Put(1, 12)]),
+        (1, vec![Op::Put(0, 3), Op::Checkpoint, Op::Put(0, 2)]),
+        (10, vec![Op::Put(1, 14)]),
+        (1, vec![Op::Put(0, 1), Op::Checkpoint, Op::Put(0, 15), Op::Put(1, 11)]),
+        (10, vec![Op::Put(0, 17), Op::Put(2, 8)]),
+        (2, vec![Op::Put(0, 13), Op::Checkpoint, Op::Put(1, 12), Op::Checkpoint, Op::Put(2, 19)]),
+        (10, vec![Op::Put(0, 6), Op::Put(1, 7), Op::Put(2, 16)]),
+        (10, vec![Op::Put(0, 1), Op::Put(1, 21)]),
+        (2, vec![Op::Put(1, 25)]),
+        (0, vec![Op::Put(0, 2), Op::Put(1, 5)]),
+    ];
+    for _ in 0..(if tier == "thorough" { 40 } else { 5 }) {
+        let max_ck = *rng.pick(&[1usize, 2, 2, 10]);
+        let mut pre = Vec::new();
+        let mut n_ck = 0;
+        for _ in 0..rng.range(1, 5) {
+            pre.push(match rng.below(8) {
+                0 if n_ck < 2 => {
+                    n_ck += 1;
+                    Op::Checkpoint
+                }
+                1 => Op::Delete(rng.below(3) as usize),
+                _ => Op::Put(rng.below(3) as usize, pick_val(rng, false)),
+            });
+        }
+        w_hist.push((max_ck, pre));
+    }
+    for (max_ck, pre) in &w_hist {
+        let n_old = pre.iter().filter(|o| matches!(o, Op::Checkpoint)).count();
+        let len = estimated_file_len(pre);
+        // second life, 1 ms later: restore the interrupted id, go on, checkpoint, restore the new one and an old one
+        let post = vec![Op::Advance(1), Op::Restore(n_old), Op::Put(2, 6), Op::Checkpoint, Op::Restore(n_old + 1), Op::Restore(0)];
+        let mut kills: Vec<Op> = split_offsets(len).into_iter().map(|(sel, a)| Op::KillW(4, sel, a)).collect();
+        kills.extend([Op::KillW(3, 2, 16), Op::KillW(5, 2, 16), Op::KillW(5, 0, 0), Op::KillW(6, 1, 1), Op::KillW(99, 2, 16)]);
+        for kop in kills {
+            let mut ops = pre.clone();
+            ops.push(kop);
+            ops.extend(post.iter().cloned());
+            out.push(show_case(&Case { real: true, oper: false, file: true, max_ck: *max_ck, ttl: None, ops }));
+        }
+    }
+    // same-millisecond restart family (kind Q, fix-C20b): the first life takes 0..2 checkpoints and dies in (or exits after)
+    // the next one at a point where its state.json exists (create, partial, write, push, stamp, past the end); NO clock
+    // advance; the new store on the same directory - whose checkpoint_seq restarts at 0 - takes one or two checkpoints,
+    // which must get ids no earlier checkpoint has, leave every earlier file as it is, and every id of both lives must
+    // restore its own state. (No retention in either life: a RETIRED id of the same millisecond may be reused - the
+    // residual of F-C20b, `reopen_same_ms_reuses_retired_id_counterexample`.)
+    for h in 0..(if tier == "thorough" { 60 } else { 12 }) {
+        let max_ck = *rng.pick(&[3usize, 10]);
+        let n_before = (h % 3) as usize;
+        let mut pre = Vec::new();
+        for _ in 0..n_before {
+            pre.push(Op::Put(rng.below(3) as usize, pick_val(rng, true)));
+            pre.push(Op::Checkpoint);
+        }
+        pre.push(Op::Put(rng.below(3) as usize, pick_val(rng, true)));
+        let kills = [Op::Kill(3), Op::Kill(4), Op::Kill(5), Op::Kill(6), Op::Kill(99), Op::KillW(4, 2, 16), Op::KillW(4, 1, 0)];
+        let n_old = n_before + 1;
+        let two = rng.chance(1, 2);
+        for kop in kills {
+            let mut ops = pre.clone();
+            ops.push(kop);
+            ops.push(Op::Put(rng.below(3) as usize, 6));
+            ops.push(Op::Checkpoint);
+            if two {
+                ops.push(Op::Put(1, 7));
+                ops.push(Op::Checkpoint);
+            }
+            for i in 0..(n_old + if two { 2 } else { 1 }) {
+                ops.push(Op::Restore(i));
+            }
+            out.push(show_case(&Case { real: true, oper: false, file: true, max_ck, ttl: None, ops }));
         }
     }
     // expiry family: keys with a TTL that are written, updated, and observed around their expiry instant
